@@ -20,6 +20,9 @@
 //	     C / R          the CAS call with `Template: <that variable>`
 //	     so "what is checked is what is signed" is visible as: nothing but read-only calls
 //	     between the last V!/G! and C/R
+//	st=paths fn=rootsel    ->  the statements of authority.init that build the chain handed to
+//	                           constraints.New, printed from the syntax tree (blanks as '_'): the
+//	                           shape `chainForSig` models
 //	st=paths fn=*          ->  all functions of package authority that make one of these calls
 //	st=paths fn=frontends  ->  every call of SignWithContext / RenewContext / Rekey outside
 //	                           authority/tls.go (file:function>method): the ways into the gate
@@ -32,6 +35,7 @@ import (
 	"fmt"
 	"go/ast"
 	"go/parser"
+	"go/printer"
 	"go/token"
 	"os"
 	"path/filepath"
@@ -273,6 +277,35 @@ func traceTemplate(fd *ast.FuncDecl) (string, bool) {
 	return strings.Join(toks, " "), true
 }
 
+func mentions(n ast.Node, name string) bool {
+	found := false
+	ast.Inspect(n, func(x ast.Node) bool {
+		if id, ok := x.(*ast.Ident); ok && id.Name == name {
+			found = true
+		}
+		return !found
+	})
+	return found
+}
+
+func hasNestedIf(b *ast.BlockStmt) bool {
+	found := false
+	ast.Inspect(b, func(x ast.Node) bool {
+		if _, ok := x.(*ast.IfStmt); ok {
+			found = true
+		}
+		return !found
+	})
+	return found
+}
+
+// render prints a node on one line, blanks replaced by '_' (the line protocol splits on blanks).
+func render(fset *token.FileSet, n ast.Node) string {
+	var sb strings.Builder
+	printer.Fprint(&sb, fset, n)
+	return strings.ReplaceAll(strings.Join(strings.Fields(sb.String()), " "), " ", "_")
+}
+
 func main() {
 	out := flag.String("out", "", "output file")
 	flag.Int("n", 0, "unused")
@@ -380,6 +413,37 @@ func main() {
 	for _, fn := range tfns {
 		o.Case("st=paths fn=tpl:"+fn, tpl[fn])
 	}
+
+	// 1c. how authority.init assembles the chain it hands to constraints.New: every statement of
+	// `init` that mentions `constraintCerts`, printed from the syntax tree, in source order
+	var selStmts []string
+	for _, f := range files {
+		for _, d := range f.Decls {
+			fd, ok := d.(*ast.FuncDecl)
+			if !ok || fd.Body == nil || fd.Name.Name != "init" || fd.Recv == nil {
+				continue
+			}
+			ast.Inspect(fd.Body, func(n ast.Node) bool {
+				switch v := n.(type) {
+				case *ast.AssignStmt:
+					if mentions(v, "constraintCerts") {
+						selStmts = append(selStmts, render(fset, v))
+					}
+					return false
+				case *ast.IfStmt:
+					if mentions(v.Body, "constraintCerts") && !hasNestedIf(v.Body) {
+						selStmts = append(selStmts, "if "+render(fset, v.Cond))
+					}
+				case *ast.RangeStmt:
+					if mentions(v.Body, "constraintCerts") {
+						selStmts = append(selStmts, "range "+render(fset, v.X))
+					}
+				}
+				return true
+			})
+		}
+	}
+	o.Case("st=paths fn=rootsel", c.List(selStmts))
 
 	// 2. whole repository: ways into the gate, and who can create a certificate
 	var fronts, creators []string
